@@ -17,14 +17,19 @@ impl Terminal {
     pub fn outcome(&self) -> (r: u64) ensures r == self.outcome_view() { unimplemented!() }
 }
 // gambit_parser's chance / player nodes as far as the payoff look-up uses them
+// payoffs written inline at a node (gambit-parser): whether a node carries them is NOT determined by its
+// outcome number (an outcome may be defined at one node and referenced by number at others): unspecified
+#[verifier::external_body] pub struct Payoffs { }
 #[verifier::external_body] pub struct GChance { }
 impl GChance {
+    #[verifier::external_body] pub fn outcome_payoffs(&self) -> (r: Option<&Payoffs>) { unimplemented!() }
     pub uninterp spec fn outcome_view(&self) -> u64;
     #[verifier::external_body]
     pub fn outcome(&self) -> (r: u64) ensures r == self.outcome_view() { unimplemented!() }
 }
 #[verifier::external_body] pub struct GPlayer { }
 impl GPlayer {
+    #[verifier::external_body] pub fn outcome_payoffs(&self) -> (r: Option<&Payoffs>) { unimplemented!() }
     pub uninterp spec fn outcome_view(&self) -> u64;
     #[verifier::external_body]
     pub fn outcome(&self) -> (r: u64) ensures r == self.outcome_view() { unimplemented!() }
